@@ -11,7 +11,7 @@ RULE = ("every operation of every other property's generator (sampled), plus mut
         "non-trivial = a mutated or oversized input")
 FUNCTIONAL = True
 ASSUMPTIONS = ["'promptly' = the whole batch finishes under the harness watchdog; algorithmic cost inherent in a feature (product of alternatives, '*' backtracking) is bounded by the generators (<= 12 groups, <= 6 stars), not by a theorem",
-               "stack depth is a runtime effect: KF-C17-altdepth (>= ~10^4 brace groups abort the process) is a recorded known finding"]
+               "stack depth is a runtime effect the model cannot exhibit: it is watched through the process exit status (20000- and 100000-group patterns are run, expected verdicts checked)"]
 OTHERS = ["c01", "c02", "c03", "c04", "c05", "c06", "c07", "c08", "c09", "c10", "c11", "c12", "c13", "c14", "c15", "c16", "c18", "c19", "c20"]
 TEXT_OPS = {"pat.new", "pat.match", "pat.best", "dewey.new", "dewey.match", "pkgname", "sum.parse", "path.new", "dep.new", "dg.name", "md.from"}
 BYTE_OPS = {"stream", "di.parse", "di.roundtrip", "di.classify", "pl.parse", "pl.entry", "pl.query"}
@@ -114,9 +114,11 @@ def generate(rng, tier):
     cases.append(Case("di.parse", [enc(b"SHA1 (" + b"n" * 3000 + b") = " + b"a" * 3000)], meta={"nt": True, "src": "big"}))
     cases.append(Case("pat.match", [enc("{a,b}" * 12 + "-[0-9]*"), enc("ababababababababababab-1")], meta={"nt": True, "src": "big"}))
     cases.append(Case("pat.match", [enc("{}" * 3000 + "x-1"), enc("x-1")], meta={"nt": True, "src": "deep"}))
-    # the recorded known finding: the recursion is as deep as the number of '{'
+    # formerly the known finding KF-C17-altdepth (stack overflow, repaired): very many groups, implementation only, expected verdicts
     # (run on the implementation only: the extracted model needs ~50 s for it; C04_fuel_ok proves its answer exists)
-    cases.append(Case("pat.match", [enc("{}" * 20000 + "x-1"), enc("x-1")], mop="", meta={"nt": True, "src": "KF"}))
+    cases.append(Case("pat.match", [enc("{}" * 20000 + "x-1"), enc("x-1")], mop="", meta={"nt": True, "src": "deep", "expect": "T"}))
+    cases.append(Case("pat.match", [enc("{}" * 100000 + "x-1"), enc("y-1")], mop="", meta={"nt": True, "src": "deep", "expect": "F"}))
+    cases.append(Case("pat.match", [enc("x{}" * 5000 + "-1"), enc("x" * 5000 + "-1")], meta={"nt": True, "src": "deep"}))
     return cases
 
 
@@ -134,8 +136,8 @@ def model_post(c, o):
 
 
 def known(c, oi, om, os_):
-    if oi == "ABORT" and c.op.startswith("pat.") and c.args and c.args[0].split(" ").count("123") >= 5000:
-        return "KF-C17-altdepth"
+    # no known finding is left for C17: the stack overflow on >= ~10^4 brace groups (formerly KF-C17-altdepth) was
+    # repaired in /repo (fix: alternate_match must not overflow the stack ...) and is reported again if it returns
     return None
 
 
@@ -148,6 +150,8 @@ def laws(cases, obsI):
     for i, (c, o) in enumerate(zip(cases, obsI)):
         if o in ("PANIC", "ABORT", "HANG", "NOT-RUN") and not known(c, o, None, None):
             out.append({"kind": "entry-point-" + o.lower(), "idxs": [i], "detail": c.op})
+        elif "expect" in c.meta and o != c.meta["expect"]:
+            out.append({"kind": "expected-verdict", "idxs": [i], "detail": "%s: expected %s, implementation %s" % (c.op, c.meta["expect"], o)})
     return out[:20]
 
 
@@ -167,4 +171,4 @@ def stats(cases, obsI):
             "panic_sites_modelled": ["dewey.rs: digit-run parse (was unwrap; now saturates)", "dewey.rs: Dewey::new slices pattern[a..b] x4 (Panic 1/2 in Dewey.v, proved unreachable)",
                                      "summary.rs: SummaryValue::push / get_s/get_i/get_a kind mismatch (Panic 1/2 in Summary.v, unreachable by C07_api_preserves_kinds)",
                                      "metadata.rs: +SIZE_* parse (was unwrap; now Err)", "pkgdb.rs: v[1] on names without '-' (was index panic; now rsplit_once)",
-                                     "pattern.rs: recursion alternate_match -> Pattern::new -> matches (fuel = number of '{', C04_fuel_ok; stack depth is KF-C17-altdepth)"]}
+                                     "pattern.rs: recursion alternate_match -> Pattern::new -> matches (work list since the repair of the stack overflow; C04_worklist_refines, C04_fuel_ok)"]}
